@@ -12,7 +12,7 @@ from simkit.pipe import Pipe, open_frontend
 
 ID = "C10"
 LEVEL = "fault_enumeration"
-RUNS = {"quick": 1600, "thorough": 30000}
+RUNS = {"quick": 1600, "thorough": 20000}
 CHUNK = 5
 RULE = ("for each seeded delimited stream (real writer / reference encoder) EVERY byte offset 0..len is used as a "
         "crash point when len<=800 (otherwise all frame/varint boundary offsets +-2 plus a tape-chosen sample), "
@@ -53,6 +53,7 @@ def generate(rng, run, tier):
         plan["knobs"]["frame_rows"] = rng.choice([1, 2, 3, 5, 8])
     plan.pop("interleave", None)
     plan["consumer"] = rng.choice(["flat", "flat", "grouped"])
+    plan["all_offsets_up_to"] = 800 if tier == "quick" else 3000
     plan["frontend"] = rng.choice(["bytesio", "raw", "buffered", "duck", "rwpair"])
     plan["fault"] = "cut" if plan["frontend"] == "bytesio" else rng.choice(["cut", "reset"])
     return plan
@@ -68,9 +69,9 @@ def simplify(plan):
             yield p
 
 
-def offsets_for(data, bounds, sim):
+def offsets_for(data, bounds, sim, limit=800):
     n = len(data)
-    if n <= 800:
+    if n <= limit:
         sim.count("all_offsets_streams")
         return list(range(n + 1))
     sim.count("sampled_offsets_streams")
@@ -141,7 +142,7 @@ def execute(plan, sim):
         for j in range(1, hdr):
             varint_offsets.add(start + j)
     ends = [end for _, end, _ in bounds]
-    for k in offsets_for(data, bounds, sim):
+    for k in offsets_for(data, bounds, sim, plan.get("all_offsets_up_to", 800)):
         sim.count("evaluations")
         if k < 3:
             sim.count("cut_lt3")
